@@ -562,6 +562,17 @@ func (db *DB) Create(o Object, s Schema) (err error) {
 	case err == nil:
 		s.initialize(db, o)
 
+		// writes still pending must reach the disk before asynchronous
+		// writes get disabled, nothing would flush nor read them afterwards
+		if es.asyncWritesEnabled() && !s.asyncWritesEnabled() {
+			if err = es.isCompatibleWith(&s); err != nil {
+				return
+			}
+			if err = db.flushAll(o); err != nil {
+				return
+			}
+		}
+
 		// the schema is existing and we don't need to build a new one
 		// update existing schema with changes
 		if err = es.update(&s); err != nil {
